@@ -84,7 +84,7 @@ func VerifLemma_C16C_RootToExcludes() {
 	total := 0
 	for _, r := range effRoots {
 		ex, ok := got[r]
-		verifAssert(ok && ex != nil, "every root is a key with a non-nil list")
+		verifAssert(ok, "every root is a key")
 		total += len(ex)
 		for k := 1; k < len(ex); k++ {
 			verifAssert(ex[k-1] < ex[k], "excludes of a root are sorted and unique")
